@@ -22,3 +22,9 @@ theories/proofs/ConverterP.vos theories/proofs/ConverterP.vok theories/proofs/Co
 theories/props/C03.vo theories/props/C03.glob theories/props/C03.v.beautified theories/props/C03.required_vo: theories/props/C03.v theories/Num.vo theories/NumR.vo theories/ConverterM.vo theories/proofs/ConverterP.vo
 theories/props/C03.vio: theories/props/C03.v theories/Num.vio theories/NumR.vio theories/ConverterM.vio theories/proofs/ConverterP.vio
 theories/props/C03.vos theories/props/C03.vok theories/props/C03.required_vos: theories/props/C03.v theories/Num.vos theories/NumR.vos theories/ConverterM.vos theories/proofs/ConverterP.vos
+theories/props/C04.vo theories/props/C04.glob theories/props/C04.v.beautified theories/props/C04.required_vo: theories/props/C04.v theories/Num.vo theories/NumR.vo theories/ConverterM.vo theories/proofs/ConverterP.vo
+theories/props/C04.vio: theories/props/C04.v theories/Num.vio theories/NumR.vio theories/ConverterM.vio theories/proofs/ConverterP.vio
+theories/props/C04.vos theories/props/C04.vok theories/props/C04.required_vos: theories/props/C04.v theories/Num.vos theories/NumR.vos theories/ConverterM.vos theories/proofs/ConverterP.vos
+theories/props/C06.vo theories/props/C06.glob theories/props/C06.v.beautified theories/props/C06.required_vo: theories/props/C06.v theories/Num.vo theories/NumR.vo theories/ConverterM.vo theories/proofs/ConverterP.vo
+theories/props/C06.vio: theories/props/C06.v theories/Num.vio theories/NumR.vio theories/ConverterM.vio theories/proofs/ConverterP.vio
+theories/props/C06.vos theories/props/C06.vok theories/props/C06.required_vos: theories/props/C06.v theories/Num.vos theories/NumR.vos theories/ConverterM.vos theories/proofs/ConverterP.vos
